@@ -29,16 +29,18 @@ CLAIMED = {
     'C04': dict(
         text='The public Swap message executed through the chain model from an arbitrary constant-product pool state: reserve deltas, receiver / fee '
              'collector / burn amounts equal floor shares of the gross output, nobody else\'s balance changes, only bank messages; receiver variants '
-             '(none, valid, invalid address). Counterexamples are replayed natively by reproducing every predicted balance and reserve.',
+             '(none, valid, invalid address). Routed swaps (4 route shapes incl. routes that return to the offer denom; pricing kernel abstracted): each hop '
+             'offers exactly the previous hop output, only the final output reaches the receiver, per-denom protocol / burn fees and reserve backing are exact. '
+             'Counterexamples are replayed natively (predicted balances and reserves; routes: the route against its hops sent one by one).',
         ref='DESIGN.md §6 C04',
         note=TRUST + 'Addresses and denoms are concrete labels; amounts are symbolic.'),
     'C05': dict(
         text='Inductive step obligations on every farm-manager message (position create / expand / close full+partial / withdraw / emergency withdraw, claim with and '
-             'without until_epoch, farm create / expand / close incl. a farm whose reward denom is an LP denom) from a symbolic state satisfying: balance = recorded '
+             'without until_epoch, farm create / expand / close incl. a farm whose reward denom is an LP denom, create / expand by the pool manager on behalf) from a symbolic state satisfying: balance = recorded '
              'positions + unclaimed farm budgets + excess X >= 0 per denom. After the message the balance still covers the liabilities and X never decreases (equal '
              'except for penalty dust).',
         ref='DESIGN.md §6 C05',
-        note=TRUST + 'Two explicit positions and two farms plus the symbolic excess; window of 10 epochs for claims.'),
+        note=TRUST + 'Two explicit positions and three farms (two on the same LP token with the same owner) plus the symbolic excess; window of 10 epochs for claims.'),
     'C06': dict(
         text='Bounded histories of claims by two explicit users (plus an aggregated remainder of other users) on one farm, executed through the public '
              'Claim message from symbolic weights/rates: every rightful claim succeeds in any order, each user is paid exactly the ledger sum of their '
@@ -56,9 +58,11 @@ CLAIMED = {
     'C08': dict(
         text='Step obligations on the public ManagePosition messages (create / expand / close full and partial / withdraw) from a symbolic farm-manager state: '
              'sender role (owner, stranger, pool manager), open/closed state, amounts, times and expiry are symbolic or case-split; authorisation, the exact '
-             'unlock boundary, full payment, LP conservation on partial closes, id prefixes / counter and non-interference with other positions are decided per path.',
+             'unlock boundary, full payment, LP conservation on partial closes, id prefixes / counter and non-interference with other positions are decided per path. '
+             'Locked deposits: ProvideLiquidity with an unlocking duration executed across BOTH contracts (pool manager execute / reply -> farm manager execute, '
+             'Positions query back) for 4 lock targets x 2 receivers, one and two assets: only the sender own positions grow, by exactly the minted shares.',
         ref='DESIGN.md §6 C08',
-        note=TRUST + 'Identifiers are concrete (fresh / taken); the pool-manager side of locking is covered by C14 when built.'),
+        note=TRUST + 'Identifiers are concrete (fresh / taken).'),
     'C09': dict(
         text='calculate_emergency_penalty executed symbolically (amount, duration, base penalty, times full range): <= 90%, equals the capped product with '
              'the code\'s 18-decimal floors, zero once unlocked, non-increasing in time.',
@@ -66,11 +70,12 @@ CLAIMED = {
         note=TRUST + 'Handler-level split of the penalty between fee collector and farm owners is covered by the position step obligations when built.'),
     'C10': dict(
         text='calculate_weight executed symbolically over the full u128 x u64 domain: amount <= weight <= 16*amount inside [1 day, 1 year], InvalidWeight outside, '
-             'monotone in amount and in duration (relational: two executions compared). Step obligations on all 13 farm-manager operations: the total weight and the '
+             'monotone in amount and in duration (relational: two executions compared). Step obligations on all 15 farm-manager operations (incl. on-behalf operations by the pool manager), on positions filled in two pieces, and on '
+             'locked deposits across both contracts: the total weight and the '
              'acting user weight recorded for the next epoch move by exactly the same amount, nothing moves for closed positions / claims / farm operations, current-epoch '
              'weights are untouched, the total covers the users, and a user without open positions has no weight.',
         ref='DESIGN.md §6 C10',
-        note=TRUST + 'Pre-state: each user weight equals the weight of their single-piece open position (positions topped up in several pieces can differ by rounding dust; see DESIGN.md 10.3).'),
+        note=TRUST + 'Pre-state: each user weight equals the sum of the weights of the pieces their open position was filled with (one piece, or two pieces of symbolic size).'),
     'C11': dict(
         text='Step obligations on the public ManageFarm messages: creation under every fee configuration (fee amount symbolic incl. zero, fee in the reward denom '
              'or another) and attached-funds shape (exact, reward only, extra coin, overpaid fee), automatic closing of expired farms with refunds to their owners, '
@@ -88,15 +93,17 @@ CLAIMED = {
     'C13': dict(
         text='assert_max_slippage and assert_slippage_tolerance executed symbolically: accepted iff the documented predicate holds (default 1%, cap 50%, '
              'belief price, zero price refused), monotone in the tolerance (relational), proportional deposits accepted under every valid tolerance, '
-             'tolerance > 1 refused.',
+             'tolerance > 1 refused. Handler level: an executed Swap message is within the caller / default tolerance against the pre-trade spot price and, with a '
+             'belief price, within tolerance of offer / belief measured on what the trader receives.',
         ref='DESIGN.md §6 C13',
         note=TRUST + 'Stableswap deposit tolerance and mixed-decimals slippage units are tracked as findings (see DESIGN.md).'),
     'C14': dict(
         text='Relational obligation: from one symbolic funded two-asset pool the real single-asset chain (execute -> self Swap sub-message -> reply -> self '
              'ProvideLiquidity) and the manual sequence Swap(half) + ProvideLiquidity(half, proceeds) are both executed; reserves, LP minted to the sender, fees and '
-             'balances are equal, the leftover is amount mod 2, the temporary buffer is gone; refusals on empty / 3-asset pools and when locking for another receiver.',
+             'balances are equal, the leftover is amount mod 2, the temporary buffer is gone; refusals on empty / 3-asset pools and when locking for another receiver. Locked deposits executed across both contracts '
+             '(4 lock targets x 2 receivers): never locks for, or expands a position of, anyone but the sender.',
         ref='DESIGN.md §6 C14',
-        note=TRUST + 'Constant-product pools; the farm-manager leg of locked deposits is covered on the farm-manager side (C08).'),
+        note=TRUST + 'Constant-product pools.'),
     'C15': dict(
         text='Complete case split (contract x privileged message x sender role x pending transfer x funds), each case decided on the real dispatchers and the '
              'cw-ownable / mantra-utils code executed from their MIR: accepted only from the authorised role and without funds, storage unchanged on rejection, '
@@ -128,7 +135,7 @@ CLAIMED = {
     'C20': dict(
         text='Fault injection through the chain model: for representative messages of both managers the k-th internal bank / token-factory / contract call is made to '
              'fail (k symbolic over the positions); decided on the real code: every emitted sub-message is reply-never or reply-on-success (pool manager) / reply-never or '
-             'the close-farm refund with reply-on-error id 1 (farm manager), hence any other internal failure fails the whole message; the failing close-farm refund '
+             'the refund of a farm-closing operation with reply-on-error id 1 (farm manager; no other operation may tolerate a failure), hence any other internal failure fails the whole message; the failing close-farm refund '
              'neither blocks the close (manual or automatic) nor touches other farms, positions or balances. State equality after a failed message follows from the '
              'platform rollback rule, which is assumed.',
         ref='DESIGN.md §6 C20',
